@@ -322,6 +322,22 @@ void CloseFile(void) {
     as_snprintf(h, sizeof(h), "AS %s/%s-%s", Version, ARCHPRNAME, ARCHSYSNAME);
 
     NewRecord(ProgCounter());
+
+    /* Relocation info queued behind the last code: NewRecord() writes it out only
+       behind a non-empty record, otherwise it would stay queued for the next pass
+       or the next source file.  Keep the empty last record, mark it as a record
+       with symbols and append the info to it. */
+
+    if (PatchList || ExportList) {
+        Head = ThisRel ? FileHeaderRRelocRec : FileHeaderRDataRec;
+        fseek(PrgFile, RecPos, SEEK_SET);
+        if (fwrite(&Head, sizeof(Head), 1, PrgFile) != 1) {
+            ChkIO(ErrNum_FileWriteError);
+        }
+        fseek(PrgFile, 0, SEEK_END);
+        WrPatches();
+        RecPos = ftell(PrgFile);
+    }
     fseek(PrgFile, RecPos, SEEK_SET);
 
     if (StartAdrPresent) {
